@@ -412,8 +412,8 @@ def _dispatch(ctx, case):
 def run(ctx):
     ctx.set_budget(60, 780)
     ctx.assume("host key category: the server's list is what it advertises on the wire (keys it holds and has not disabled)")
-    ctx.explore(direct_cases(), lambda c: _dispatch(ctx, c), ctx.scale(1000, 30000), shrink=True, seed_offset=0)
-    ctx.explore(synthetic_cases(), lambda c: _dispatch(ctx, c), ctx.scale(800, 25000), shrink=True, seed_offset=1)
+    ctx.explore(direct_cases(), lambda c: _dispatch(ctx, c), ctx.scale(1000, 18000), shrink=True, seed_offset=0)
+    ctx.explore(synthetic_cases(), lambda c: _dispatch(ctx, c), ctx.scale(800, 15000), shrink=True, seed_offset=1)
     # end to end: threads involved, collect-then-continue
     ctx.explore(direct_cases("e2e"), lambda c: _dispatch(ctx, c), ctx.scale(50, 600), shrink=False, seed_offset=2)
 
